@@ -403,30 +403,30 @@ func (g *generator) walkNumber(schema *schemaparser.Schema) (ast.Type, error) {
 	}
 
 	if schema.Minimum != nil {
-		value := numberBound(scalarKind, schema.Minimum)
+		op, value := boundOfNumber(scalarKind, ast.GreaterThanEqualOp, schema.Minimum)
 		def.Scalar.Constraints = append(def.Scalar.Constraints, ast.TypeConstraint{
-			Op:   ast.GreaterThanEqualOp,
+			Op:   op,
 			Args: []any{value},
 		})
 	}
 	if schema.ExclusiveMinimum != nil {
-		value := numberBound(scalarKind, schema.ExclusiveMinimum)
+		op, value := boundOfNumber(scalarKind, ast.GreaterThanOp, schema.ExclusiveMinimum)
 		def.Scalar.Constraints = append(def.Scalar.Constraints, ast.TypeConstraint{
-			Op:   ast.GreaterThanOp,
+			Op:   op,
 			Args: []any{value},
 		})
 	}
 	if schema.Maximum != nil {
-		value := numberBound(scalarKind, schema.Maximum)
+		op, value := boundOfNumber(scalarKind, ast.LessThanEqualOp, schema.Maximum)
 		def.Scalar.Constraints = append(def.Scalar.Constraints, ast.TypeConstraint{
-			Op:   ast.LessThanEqualOp,
+			Op:   op,
 			Args: []any{value},
 		})
 	}
 	if schema.ExclusiveMaximum != nil {
-		value := numberBound(scalarKind, schema.ExclusiveMaximum)
+		op, value := boundOfNumber(scalarKind, ast.LessThanOp, schema.ExclusiveMaximum)
 		def.Scalar.Constraints = append(def.Scalar.Constraints, ast.TypeConstraint{
-			Op:   ast.LessThanOp,
+			Op:   op,
 			Args: []any{value},
 		})
 	}
@@ -452,6 +452,23 @@ func numberBound(scalarKind ast.ScalarKind, bound *big.Rat) any {
 	value, _ := bound.Float64()
 
 	return value
+}
+
+// boundOfNumber gives the operator and the argument of a bound. A fractional
+// bound of an integer is brought to the closest integer it admits: the
+// integers above 0.5 – inclusive or not – are those from 1.
+func boundOfNumber(scalarKind ast.ScalarKind, op ast.Op, bound *big.Rat) (ast.Op, any) {
+	if scalarKind == ast.KindFloat64 || bound.IsInt() {
+		return op, numberBound(scalarKind, bound)
+	}
+
+	floor := new(big.Int).Div(bound.Num(), bound.Denom()) // Euclidean division: rounds down for a positive denominator
+	switch op {
+	case ast.GreaterThanEqualOp, ast.GreaterThanOp:
+		return ast.GreaterThanEqualOp, numberBound(scalarKind, new(big.Rat).SetInt(floor.Add(floor, big.NewInt(1))))
+	default:
+		return ast.LessThanEqualOp, numberBound(scalarKind, new(big.Rat).SetInt(floor))
+	}
 }
 
 func (g *generator) walkList(schema *schemaparser.Schema) (ast.Type, error) {
